@@ -369,7 +369,7 @@ def oracle(case):
             _SESS[key] = _run_session("o" + hashlib.sha1(key.encode()).hexdigest()[:8], cfg, [])
         ref = _SESS[key]["ref"]
         sc = _scenario_real("o" + hashlib.sha1(json.dumps(case, sort_keys=True).encode()).hexdigest()[:8], cfg, case["kills"])
-        return _judge(cfg, sc, ref["res"], ref["pickle_sha"][str(cfg["n"])])
+        return _judge(cfg, sc, ref["res"], ref["res"]["sha"])  # last.pkl must be the pickle of the RETURNED state
     except Infra:
         return None
 
@@ -472,7 +472,10 @@ def _run_cfg(ctx, cfg):
     if any(o["ref"]["res"] != ref["res"] for o in outs):
         ctx.disagree(case0, [o["ref"]["res"] for o in outs], ref["res"], "the uninterrupted run is not deterministic")
         return
-    final_sha = ref["pickle_sha"][str(n)]
+    final_sha = ref["res"]["sha"]   # last.pkl must be the pickle of the returned (samples, state)
+    if ref["pickle_sha"][str(n)] != final_sha:
+        ctx.counterexample(dict(cfg=cfg, kills=[]), "after an uninterrupted run last.pkl is not the pickle of the returned "
+                           "(samples, state)", dict(driver="re.optimize_kl", phase="files", error="last.pkl"))
     if proto is None:
         # unknown protocol: no model to compare with; explore crash points directly in real coordinates
         kills = [[dict(at=k, when="before")] for k in range(len(ref["ops"]) + 1)]
